@@ -11,7 +11,7 @@ After every op the harness waits until the daemon has processed it (barrier on t
 connection, then on every other live connection), collects what each connection received, and
 compares, connection by connection, with what the model's `step` emitted for the same op.
 """
-import os, re, pwd, time, subprocess, socket
+import os, re, pwd, time, subprocess, socket, signal
 from .common import *
 from . import bus, wiregen, build, script
 
@@ -364,6 +364,23 @@ class ImplRun:
                 except OSError:
                     pass
                 self.pre.pop(k, None)
+        elif op[0] == "frozen":
+            # the daemon is held (SIGSTOP) while several clients write and hang up: when it runs again it finds all of
+            # that at once, in one turn of its main loop - descriptors in the order they became ready, each
+            # connection's queue drained in turn
+            os.kill(self.d.proc.pid, signal.SIGSTOP)
+            hung_up = []
+            try:
+                for sub in op[1]:
+                    if sub[0] == "send" and sub[1] in self.c and sub[1] not in self.closed:
+                        self.c[sub[1]].send_raw(sub[2])
+                    elif sub[0] == "close" and sub[1] in self.c and sub[1] not in self.closed:
+                        self.c[sub[1]].close(); self.closed.add(sub[1]); got.pop(sub[1], None); hung_up.append(sub[1])
+                    time.sleep(0.002)
+            finally:
+                os.kill(self.d.proc.pid, signal.SIGCONT)
+            for cid in hung_up:
+                self._wait_gone(cid)
         elif op[0] == "stall":
             self._stall(op[1])
         elif op[0] == "unstall":
@@ -538,10 +555,40 @@ def parse_model_outs(ans):
     return per, closed, opaque
 
 
-def op_lines(ops, fdmode=False):
+def frozen_conns(subs):
+    order = []
+    for sub in subs:
+        if sub[1] not in order:
+            order.append(sub[1])
+    return order
+
+
+def frozen_order(subs, order=None):
+    """the order in which the daemon serves what it finds when it runs again: connection by connection (everything a
+    connection wrote - and then its hang-up - in one go: _dbus_loop_dispatch drains one connection after the other). Which
+    connection comes first is up to the kernel's ready list and the loop's bookkeeping: `order` (default: first appearance)"""
+    by = {}
+    for sub in subs:
+        by.setdefault(sub[1], []).append(sub)
+    return [sub for c in (order or frozen_conns(subs)) for sub in by[c]]
+
+
+def op_lines(ops, fdmode=False, groups=None, orders=None):
+    """one model line per op; a `frozen` op stands for several (`groups`, when given, receives the number of lines per op)"""
     lines = []
     dirty = set()
-    for op in ops:
+    flat = []
+    for idx, op in enumerate(ops):
+        if op[0] == "frozen":
+            inner = frozen_order(op[1], (orders or {}).get(idx))
+            flat.extend(inner)
+            if groups is not None:
+                groups.append(len(inner))
+        else:
+            flat.append(op)
+            if groups is not None:
+                groups.append(1)
+    for op in flat:
         if op[0] == "fdsleep":
             lines.append("bus fdtimeout"); continue
         if fdmode and op[0] in ("send", "raw", "fdsend"):
@@ -575,11 +622,12 @@ def op_lines(ops, fdmode=False):
     return lines
 
 
-def model_run(ops, policy=SESSION, limits=None, fdmode=False):
+def model_run(ops, policy=SESSION, limits=None, fdmode=False, orders=None):
     limits = dict(limits or {})
     limits.setdefault("maxmsg", 32 * 1024 * 1024)      # bus/config-parser.c: the bus's own default for max_message_size
+    groups = []
     lines = ["bus reset " + " ".join("%s=%d" % kv for kv in (limits or {}).items() if kv[0] not in ("reply_timeout", "pending_fd_timeout", "outgoing"))] + policy.to_model() + \
-        ([x for l in op_lines(ops, True) for x in (l, "bus fdstate")] if fdmode else op_lines(ops))
+        ([x for l in op_lines(ops, True) for x in (l, "bus fdstate")] if fdmode else op_lines(ops, groups=groups, orders=orders))
     outs = script.run_model("\n".join(lines) + "\n")[0]
     pre = 1 + len(policy.rules)
     for o in outs[:pre]:
@@ -590,7 +638,17 @@ def model_run(ops, policy=SESSION, limits=None, fdmode=False):
         res = [parse_model_outs(o) for o in body[0::2]]
         LAST_RUN["model_open"] = [int(re.search(r"open=(\d+)", o).group(1)) for o in body[1::2]]
         return res
-    return [parse_model_outs(o) for o in outs[pre:]]
+    res, k = [], pre
+    for g in groups:
+        per, closed, opaque = {}, set(), []
+        for o in outs[k:k + g]:
+            p1, c1, o1 = parse_model_outs(o)
+            for cid, ls in p1.items():
+                per.setdefault(cid, []).extend(ls)
+            closed |= c1; opaque += o1
+        # (a connection that hung up inside a frozen batch is not one the bus closed)
+        res.append((per, closed, opaque)); k += g
+    return res
 
 
 def opaque_match(model_line, impl_line):
@@ -645,11 +703,44 @@ def dump_steps(steps):
 
 
 def compare(ops, policy=SESSION, limits=None, extra="", impl=None):
-    """run both sides; returns None when they agree, else a dict describing the first difference"""
-    fdmode = any(op[0] == "fdsend" for op in ops)
-    model = model_run(ops, policy, limits, fdmode)
-    steps, died, _ = impl if impl is not None else run_impl(ops, policy, limits, extra)
+    """run both sides; returns None when they agree, else a dict describing the first difference. Where the daemon found
+    several connections' bytes at once (`frozen`), the observations must equal the model's for SOME order of serving those
+    connections (each connection's own order is kept): the orders are searched, depth first, the latest batch first."""
+    import itertools
+    steps, died, uq = impl if impl is not None else run_impl(ops, policy, limits, extra)
+    impl = (steps, died, uq)
     isteps = dump_steps(steps)
+    first = _compare_once(ops, policy, limits, impl, isteps, None)
+    frozen = [i for i, op in enumerate(ops) if op[0] == "frozen" and len(frozen_conns(op[1])) > 1]
+    if first is None or not frozen:
+        return first
+    orders, untried, runs, diff = {}, {}, 0, first
+    LAST_RUN["order_search_runs"] = 0
+    while diff is not None and runs < 120:
+        cands = [f for f in frozen if f <= diff["step"]]
+        f = None
+        for c in reversed(cands):
+            if c not in untried:
+                conns = frozen_conns(ops[c][1])
+                untried[c] = [list(p) for p in itertools.permutations(conns)][1:][:23]
+            if untried[c]:
+                f = c; break
+        if f is None:
+            break
+        orders[f] = untried[f].pop(0)
+        for g in [g for g in list(untried) if g > f]:
+            untried.pop(g); orders.pop(g, None)
+        runs += 1
+        diff = _compare_once(ops, policy, limits, impl, isteps, orders)
+    LAST_RUN["order_search_runs"] = runs
+    return None if diff is None else first
+
+
+def _compare_once(ops, policy, limits, impl, isteps, orders):
+    fdmode = any(op[0] == "fdsend" for op in ops)
+    model = model_run(ops, policy, limits, fdmode, orders=orders)
+    steps, died, _ = impl
+    isteps = [(dict(per), set(cl)) for per, cl in isteps]
     dirty = set()
     stalled, deferred = set(), {}
     for i, (iper, newly) in enumerate(isteps):
@@ -657,6 +748,16 @@ def compare(ops, policy=SESSION, limits=None, extra="", impl=None):
         mper, mclosed, _ = model[i]
         if op[0] == "stall":
             stalled.add(op[1])
+        if op[0] == "frozen":
+            # what a connection that hung up inside the batch was sent before that, nobody has seen
+            for s_ in op[1]:
+                if s_[0] == "close":
+                    mper.pop(s_[1], None); iper.pop(s_[1], None)
+                    mclosed = mclosed - {s_[1]}      # (whether the bus dropped it a moment before it hung up cannot be told)
+            # a connection the bus dropped inside the batch (an invalid message among the bytes it found): by the time the
+            # messages before it are dispatched its transport is gone, so what they earned it is never written
+            for cid in mclosed & newly:
+                mper.pop(cid, None); iper.pop(cid, None)
         # what the bus queues for a connection that is not reading is seen when it reads again
         for cid in list(mper):
             if cid in stalled and not (op[0] == "unstall" and op[1] == cid):
@@ -705,6 +806,8 @@ def impl_trace(ops, policy=SESSION, limits=None, extra=""):
 
 
 def show_op(op):
+    if op[0] == "frozen":
+        return "frozen " + ";".join(show_op(s).replace(" ", ",") for s in op[1])
     if op[0] == "send":
         return "send %d %s" % (op[1], op[2].hex())
     if op[0] == "fdsend":
@@ -718,6 +821,8 @@ def show_op(op):
 
 def parse_op(s):
     t = s.split()
+    if t[0] == "frozen":
+        return ("frozen", [parse_op(x.replace(",", " ")) for x in t[1].split(";")])
     if t[0] == "send":
         return ("send", int(t[1]), bytes.fromhex(t[2]))
     if t[0] == "connect":
